@@ -15,7 +15,17 @@ RULE = ("tuples of 1..4 frames (0..6 rows, 1..4 columns) with overlapping / disj
         "modify (scalar, vector, callable), select / unselect (all subsets and orders), rename (incl. swaps); non-trivial = >=2 frames with "
         "different column sets (rbind/cbind/update) or a result whose column list differs from the input (others)")
 
-FAMILIES = {"a": ["int", "float", "bool"], "b": ["str"], "c": ["date"], "d": ["float", "int"], "e": ["timedelta"], "f": ["datetime"]}
+# column names incl. names that contain other names ("ab" / "a" / "b", "d_e" / "d" / "e"): a name is a key, never a pattern
+FAMILIES = {"a": ["int", "float", "bool"], "b": ["str"], "c": ["date"], "d": ["float", "int"], "e": ["timedelta"], "f": ["datetime"],
+            "ab": ["int", "float"], "d_e": ["float"]}
+# objects with a history are also left grouped by an earlier group_by (harness/warm.py), except for `modify`, which is
+# documented as group-wise on a grouped receiver
+WARM_GROUPED = True
+
+
+def warm_grouped(case):
+    return case.get("op") != "modify"
+
 OPS = ["rbind", "cbind", "update", "modify", "select", "unselect", "rename"]
 
 
@@ -78,6 +88,11 @@ def gen_cases(ctx):
         {"op": "rbind", "frames": [{"n": 0, "cols": [i2("a", []), i2("b", [], "str")]}, {"n": 2, "cols": [i2("d", [1.5, 2.5], "float"), i2("a", [1, 2])]}]},
         {"op": "rename", "frames": [{"n": 2, "cols": [i2("a", [1, 2]), i2("d", [3, 4])]}], "to_from": [["d", "a"], ["a", "d"]]},
     ]
+    # one name given, other names contained in it (and the reverse): names are keys, never patterns
+    for names, drop in ((["a", "b", "ab"], ["ab"]), (["ab", "a", "b"], ["a"]), (["d", "e", "d_e"], ["d_e"]), (["d_e", "d"], ["d"]), (["a", "ab"], ["ab"])):
+        fr = gen_frame(rng, names, nrow=3)
+        cases.append({"op": "unselect", "frames": [fr], "cols": drop})
+        cases.append({"op": "select", "frames": [fr], "cols": drop})
     n = 600 if ctx.tier == "quick" else 15000
     for _ in range(n):
         cases.append(gen_case(rng, ctx.tier))
@@ -122,6 +137,12 @@ def impl(case):
         res["cols"] = {k: vecgen.canon_array(v) for k, v in out.items()}
         res["na"] = {k: [bool(x) for x in v.is_na()] for k, v in out.items()}
         res["aliases"] = [k for k, v in out.items() for f in frames for c in f.values() if np.shares_memory(v, c)]
+        # the result is a plain frame: an ungrouped modify with a scalar works on it whatever the history of the operands
+        try:
+            if out.nrow >= 1:      # (a scalar cannot be broadcast into a frame without rows: accepted, see C01)
+                out.modify(_probe_=0)
+        except Exception as e:
+            res["result_not_plain"] = f"{type(e).__name__}: {e}"
     except Exception as e:
         res["err"] = f"{type(e).__name__}: {e}"
     res["mutated"] = [framegen.snapshot(f) for f in frames] != snaps
@@ -296,6 +317,8 @@ def judge(ctx, case, obs, mouts):
     nontrivial = (len(F) >= 2 and len(sets) >= 2) if op in ("rbind", "cbind", "update") else ("err" not in obs and obs.get("colnames") != [c["name"] for c in F[0]["cols"]])
     if obs["mutated"]:
         ctx.violation("oracle", f"{op}:mutates", "an operand was modified", case, obs)
+    if obs.get("result_not_plain"):
+        ctx.violation("oracle", f"{op}:result-not-plain", f"the result does not behave like a plain frame (modify with a scalar raised {obs['result_not_plain']}): it carries state of its operands", case, obs)
     if obs.get("aliases"):
         ctx.violation("oracle", f"{op}:aliases", f"result columns {obs['aliases']} share memory with an operand", case, obs)
     exp = expected_layout(case)
